@@ -518,6 +518,18 @@ func (t *itr) expr(e ast.Expr, pre *[]string) string {
 				return "(~~~" + t.expr(x.X, pre) + ")"
 			}
 		}
+		if x.Op == token.SUB {
+			if tv, ok := t.p.info.Types[x]; ok && tv.Value != nil {
+				// a negative constant
+				lt := t.leanType(tv.Type)
+				if strings.HasPrefix(lt, "BitVec ") {
+					return fmt.Sprintf("(BitVec.ofInt %s (%s))", strings.TrimPrefix(lt, "BitVec "), tv.Value.ExactString())
+				}
+				if lt == "Int" {
+					return fmt.Sprintf("((%s) : Int)", tv.Value.ExactString())
+				}
+			}
+		}
 		return t.fail("unsupported unary operator %s", x.Op)
 	case *ast.BinaryExpr:
 		if id, ok := x.Y.(*ast.Ident); ok && id.Name == "nil" && (x.Op == token.EQL || x.Op == token.NEQ) {
@@ -2795,13 +2807,11 @@ func genPools(repo string, tiny bool) (string, []string) {
 		t.joinIf[f] = true
 	}
 	t.tokens["archetypeAccess"] = true
-	t.worldExt["Query.nextBatch"] = "nextBatchF"
-	t.worldExt["Query.nextNodeOrArchetype"] = "nextNodeF"
 	t.srcExt = map[string]string{"q.world.closeQuery": "closeQueryF"}
-	for _, f := range []string{"Query.nextArchetypeFiltered", "Query.nextArchetype", "Query.Next"} {
+	for _, f := range []string{"Query.nextArchetypeFiltered", "Query.nextBatch", "Query.nextNode", "Query.nextNodeOrArchetype", "Query.nextArchetype", "Query.Next"} {
 		t.usesEff[f] = true
 	}
-	for _, f := range []string{"Query.setArchetype", "Query.stepArchetype", "Query.nextArchetypeSimple", "Query.nextArchetypeFiltered", "Query.nextArchetype", "Query.Next"} {
+	for _, f := range []string{"Query.setArchetype", "Query.stepArchetype", "Query.nextArchetypeSimple", "Query.nextArchetypeFiltered", "Query.nextArchetypeBatch", "Query.nextBatch", "Query.nextNode", "Query.nextNodeOrArchetype", "Query.nextArchetype", "Query.Next"} {
 		t.joinIf[f] = true
 	}
 	t.tokens["archetypeData"] = true
@@ -2813,7 +2823,8 @@ func genPools(repo string, tiny bool) (string, []string) {
 	t.structs["EntityEvent"] = true
 	t.effExt["archetype.Remove"] = "archRemoveF"
 	t.nilChecks = map[string]bool{}
-	for _, f := range []string{"Query.countEntities", "Query.Count", "Query.entityAt", "Query.EntityAt", "World.findArchetypeSlow", "World.findOrCreateArchetypeSlow", "World.findOrCreateArchetype", "World.NewEntity", "World.notifyExchange", "World.exchange", "World.newEntitiesNoNotify", "World.removeEntities", "World.getExchangeMask", "World.exchangeNoNotify", "World.createArchetype", "World.setRelation", "World.RemoveEntity", "World.removeArchetype", "World.cleanupArchetype", "World.cleanupArchetypes", "World.createEntity", "World.createEntities", "World.Has", "World.HasUnchecked", "World.Mask",
+	for _, f := range []string{"Query.setArchetype", "Query.stepArchetype", "Query.nextArchetypeSimple", "Query.nextArchetypeFiltered", "Query.nextArchetypeBatch", "Query.nextBatch", "Query.nextNode", "Query.nextNodeOrArchetype", "Query.nextArchetype", "Query.Next",
+		"Query.countEntities", "Query.Count", "Query.entityAt", "Query.EntityAt", "World.findArchetypeSlow", "World.findOrCreateArchetypeSlow", "World.findOrCreateArchetype", "World.NewEntity", "World.notifyExchange", "World.exchange", "World.newEntitiesNoNotify", "World.removeEntities", "World.getExchangeMask", "World.exchangeNoNotify", "World.createArchetype", "World.setRelation", "World.RemoveEntity", "World.removeArchetype", "World.cleanupArchetype", "World.cleanupArchetypes", "World.createEntity", "World.createEntities", "World.Has", "World.HasUnchecked", "World.Mask",
 		"World.relationError", "World.checkRelation", "World.getRelation", "World.getRelationUnchecked"} {
 		t.nilChecks[f] = true
 	}
@@ -2836,7 +2847,7 @@ func genPools(repo string, tiny bool) (string, []string) {
 		"archNode.archetypeMap": "nodeArchMapF", "archNode.Archetypes": "nodeArchetypesF", "archetype.IsActive": "archActiveF", "pagedSlice.Get": "pagedGetF", "pagedSlice.Len": "pagedLenF",
 		"archetype.Len": "archLenF", "archetype.HasComponent": "archHasComponentF", "archetype.node": "archNodeF", "archNode.Relation": "nodeRelationF",
 		"archetype.HasRelationComponent": "archHasRelCompF", "archetype.RelationComponent": "archRelCompF", "archNode.Ids": "nodeIdsF", "archetype.GetEntity": "archGetEntityF",
-		"archNode.GetArchetype": "nodeGetArchetypeF", "archNode.Mask": "nodeMaskF", "archetype.archetypeAccess": "archAccessF", "archetype.Get": "archGetF", "archetype.Components": "archComponentsF"} {
+		"archNode.GetArchetype": "nodeGetArchetypeF", "archNode.Mask": "nodeMaskF", "archetype.archetypeAccess": "archAccessF", "archetype.index": "archIndexF", "archetype.Get": "archGetF", "archetype.Components": "archComponentsF"} {
 		t.tokExt[k] = v
 	}
 	for k, v := range map[string][2]string{
@@ -2856,6 +2867,7 @@ func genPools(repo string, tiny bool) (string, []string) {
 		"nextNodeF":            {"eff.nextNode", "Ext → Query → Ext × Query × Bool"},
 		"closeQueryF":          {"eff.closeQuery", "Ext → Query → Ext × Query"},
 		"archAccessF":          {"tok.archAccess", "Option Nat → Option Nat"},
+		"archIndexF":           {"tok.archIndex", "Option Nat → BitVec 32"},
 		"createNodeF":          {"eff.createNode", "Ext → World → " + mns + ".Mask → BitVec 8 → Bool → Ext × World × Option Nat"},
 		"nodeNeighborGetF":     {"tok.nodeNeighborGet", "Option Nat → BitVec 8 → Option Nat × Bool"},
 		"nodeNeighborSetF":     {"eff.nodeNeighborSet", "Ext → Option Nat → BitVec 8 → Option Nat → Ext × Unit"},
@@ -2927,7 +2939,8 @@ func genPools(repo string, tiny bool) (string, []string) {
 		"World.createArchetype", "World.setRelation", "World.getExchangeMask", "World.exchangeNoNotify", "World.removeEntities", "World.newEntitiesNoNotify", "World.notifyExchange", "World.exchange", "World.NewEntity",
 		"World.findArchetypeSlow", "World.findOrCreateArchetypeSlow", "World.findOrCreateArchetype",
 		"batchArchetypes.Get", "batchArchetypes.Len", "Query.countEntities", "Query.Count", "Query.entityAt", "Query.EntityAt",
-		"Query.checkNext", "Query.setArchetype", "Query.stepArchetype", "Query.nextArchetypeSimple", "Query.nextArchetypeFiltered", "Query.nextArchetype", "Query.Next",
+		"Query.checkNext", "Query.setArchetype", "Query.stepArchetype", "Query.nextArchetypeSimple", "Query.nextArchetypeFiltered",
+		"Query.nextArchetypeBatch", "Query.nextBatch", "Query.nextNode", "Query.nextNodeOrArchetype", "Query.nextArchetype", "Query.Next",
 	}
 	// which functions need the uninterpreted-function parameters (directly or through a callee)
 	calls := map[string][]string{}
